@@ -111,6 +111,10 @@ def ite(c, a, b):
         return b
     if a == b:
         return a
+    if a == TRUE and b == FALSE:
+        return c
+    if a == FALSE and b == TRUE:
+        return lnot(c)
     return ('ite', c, a, b)
 
 
@@ -178,6 +182,14 @@ class SymEx:
         self.depth = 0
         self.roundings = 0
         self.reads_undef = []
+        self.pc = []             # path condition stack (bool terms)
+
+    def need(self, cond, text):
+        """Record a condition the code relies on at this point (guarded by the path condition)."""
+        g = TRUE
+        for c in self.pc:
+            g = land(g, c)
+        self.domain.append((lor(lnot(g), cond) if g != TRUE else cond, text))
 
     # ------------------------------------------------------------ symbols
     def fresh(self, base):
@@ -337,7 +349,9 @@ class SymEx:
                 g = st.returned
                 s1 = st.copy()
                 s1.returned = FALSE
+                self.pc.append(lnot(g))
                 s1 = self.stmt(s, env, s1)
+                self.pc.pop()
                 # where already returned keep st, else s1
                 m = self.merge(g, st, s1)
                 m.returned = lor(g, s1.returned)
@@ -368,8 +382,11 @@ class SymEx:
                 return self.block(s[2], env, st)
             if c == FALSE:
                 return self.block(s[3], env, st)
+            self.pc.append(c)
             s1 = self.block(s[2], env, st.copy())
+            self.pc[-1] = lnot(c)
             s2 = self.block(s[3], env, st.copy())
+            self.pc.pop()
             m = self.merge(c, s1, s2)
             return m
         if k == 'for':
@@ -396,7 +413,7 @@ class SymEx:
             return self.block(s[1], env, st)
         if k == 'assert':
             c = self.tobool(self.ev(s[1], env, st))
-            self.domain.append((c, s[2]))
+            self.need(c, s[2])
             return st
         raise Unsupported('symex statement %s' % k)
 
@@ -528,8 +545,11 @@ class SymEx:
             if c == FALSE:
                 return self.ev(e[4], env, st)
             s1, s2 = st.copy(), st.copy()
+            self.pc.append(c)
             a = self.ev(e[3], env, s1)
+            self.pc[-1] = lnot(c)
             b = self.ev(e[4], env, s2)
+            self.pc.pop()
             m = self.merge(c, s1, s2)
             st.mem = m.mem
             return self.merge_val(c, a, b)
@@ -594,7 +614,7 @@ class SymEx:
                         q = abs(a[1]) // abs(b[1])
                         return num(q if (a[1] >= 0) == (b[1] >= 0) else -q)
                     raise Unsupported('symbolic integer division')
-                self.domain.append((cmp('!=', b, num(0)), 'divisor non-zero'))
+                self.need(cmp('!=', b, num(0)), 'divisor non-zero')
             r = mk(op, a, b)
             if self.mode == 'NOISY' and t[0] == 'f' and not is_num(r):
                 return self.noise(r)
@@ -636,7 +656,7 @@ class SymEx:
             if key in self._sqrt_cache:
                 return self._sqrt_cache[key]
             r = self.fresh('sqrt')
-            self.domain.append((cmp('>=', x, num(0)), 'sqrt argument non-negative'))
+            self.need(cmp('>=', x, num(0)), 'sqrt argument non-negative')
             self.assumes.append(land(cmp('>=', r, num(0)), cmp('==', mk('*', r, r), x)))
             out = self.noise(r) if self.mode == 'NOISY' else r
             self._sqrt_cache[key] = out
